@@ -698,6 +698,10 @@ func main() {
 			var d bvhDesc
 			json.Unmarshal(in.Raw, &d)
 			addBvh(d)
+		case in.Kind == "ladder":
+			var d ladderDesc
+			json.Unmarshal(in.Raw, &d)
+			run.Add(ladderCase(d))
 		case strings.HasPrefix(in.Kind, "oct-"):
 			var d setDesc
 			json.Unmarshal(in.Raw, &d)
@@ -750,6 +754,12 @@ func main() {
 				Verts: [][3]float64{{-4, -4, 5.5}, {4, -4, 5.5}, {0, 6, 5.5}, {-4, -4, 5}, {4, -4, 5}, {0, 6, 5}},
 				Idx:   []int{0, 1, 2, 3, 4, 5}, O: [3]float64{0, 0, 0}, Dir: [3]float64{0, 0, 1}, Lo: 1, Hi: 1e6, Seed: seed})
 		}
+	}
+	// the size ladder (judged in Go, see ladder.go)
+	for _, d := range ladderCases(run.Seed, run.Tier == "thorough") {
+		run.Count(fmt.Sprintf("ladder:%s:%s", d.What, d.Kind))
+		run.Count(fmt.Sprintf("ladder:elements=%d", d.N))
+		run.Add(ladderCase(d))
 	}
 	r := hx.NewRng(run.Seed)
 	big := 60
